@@ -75,6 +75,9 @@ pub const CHAIN_ADAPTORS: &[(&str, bool)] = &[
     (".keep(|v| true)", true),
     (".each(|v| v)", true),
     (".cycle().take(2)", true),
+    // elements that are skipped over are still evaluated: their errors must surface
+    (".skip(1)", true),
+    (".step(2)", true),
 ];
 
 /// consumers that pull everything
